@@ -20,6 +20,11 @@
 (*     records, rrsets() each (owner, type) exactly once with all its        *)
 (*     records, both in canonical order; find_soa / find_apex_rtype / len /  *)
 (*     is_empty / Deref agree with the content.                              *)
+(*  S4 Total.  No call on a collection built through the public interface    *)
+(*     panics; in particular sign_zone (which returns a Result and has an    *)
+(*     error MultipleTtlValues) on a sorted unsigned zone in which the       *)
+(*     records of one RRset carry different TTLs - insert / extend accept    *)
+(*     such records.                                                         *)
 (*                                                                           *)
 (* A record is [n |-> owner as spelled, t |-> type, ttl |-> TTL,             *)
 (* rd |-> RDATA octets]; class IN throughout.  The types used (A, TXT, NS    *)
@@ -29,7 +34,7 @@
 EXTENDS Names, FiniteSets, TLC
 
 CONSTANT Dev
-DevNames == {"D_update_data_in_place", "D_remove_first_is_last"}
+DevNames == {"D_update_data_in_place", "D_remove_first_is_last", "D_mixed_ttl_panic"}
 
 SX == INSTANCE SequencesExt
 FoldL(op(_, _), base, seq) == SX!FoldLeft(op, base, seq)
@@ -132,6 +137,9 @@ RrsetsExact(c) ==
   LET g == Rrsets(c)
   IN /\ \A i, j \in 1..Len(g) : i # j => ~(NameEq(g[i][1].n, g[j][1].n) /\ g[i][1].t = g[j][1].t)
      /\ \A i \in 1..Len(g) : Range(g[i]) = {r \in Range(c) : NameEq(r.n, g[i][1].n) /\ r.t = g[i][1].t}
+\* S4: Rrset::new() .expect("TTLs should be the same") under every iterator
+MixedTtl(c) == \E i, j \in 1..Len(c) : NameEq(c[i].n, c[j].n) /\ c[i].t = c[j].t /\ c[i].ttl # c[j].ttl
+IterPanics(c, dev) == MixedTtl(c) /\ "D_mixed_ttl_panic" \in dev
 \* find_soa(): the first SOA RRset; find_apex_rtype(name, t)
 FindSoa(c) == LET m == {i \in 1..Len(c) : c[i].t = T_SOA} IN IF m = {} THEN <<>> ELSE LowerName(c[Least(m)].n)
 ApexCount(c, name, t) == Cardinality({i \in 1..Len(c) : NameEq(c[i].n, name) /\ c[i].t = t})
